@@ -392,7 +392,7 @@ def replay_boundary(ctx, cell, case):
 
 def units(tier, seed):
     T = tier == "thorough"
-    n = 2500 if T else 250
+    n = 20000 if T else 250
     us = [Unit(f"gen_{k}", "c08:unit_generated", {"kind": k, "n": n}, 4) for k in ("total", "average", "per_antenna", "peak", "papr", "composite", "factory_ofdm", "factory_mimo")]
     us.append(Unit("gen_total_2", "c08:unit_generated", {"kind": "total", "n": n}, 4))
     us.append(Unit("boundary", "c08:unit_boundary", {}, 1))
